@@ -498,10 +498,112 @@ mod upgrade {
     }
 }
 
+/// More callers' wakers and call shapes: a waker whose data pointer is null (an executor that keeps the task
+/// slot number in the pointer uses null for slot 0), and an opaque future that polls another opaque future
+/// with the context it was given (the inner wake travels through two borrowed wakers, one inside the other).
+mod shapes {
+    use super::*;
+    use std::task::{RawWaker, RawWakerVTable};
+    static SLOT_WAKES: [AtomicU64; 4] = [AtomicU64::new(0), AtomicU64::new(0), AtomicU64::new(0), AtomicU64::new(0)];
+    static SLOT_LIVE: [AtomicU64; 4] = [AtomicU64::new(0), AtomicU64::new(0), AtomicU64::new(0), AtomicU64::new(0)];
+    unsafe fn s_clone(p: *const ()) -> RawWaker { SLOT_LIVE[p as usize].fetch_add(1, Ordering::SeqCst); RawWaker::new(p, &SLOT_VT) }
+    unsafe fn s_wake(p: *const ()) { SLOT_WAKES[p as usize].fetch_add(1, Ordering::SeqCst); SLOT_LIVE[p as usize].fetch_sub(1, Ordering::SeqCst); }
+    unsafe fn s_wake_by_ref(p: *const ()) { SLOT_WAKES[p as usize].fetch_add(1, Ordering::SeqCst); }
+    unsafe fn s_drop(p: *const ()) { SLOT_LIVE[p as usize].fetch_sub(1, Ordering::SeqCst); }
+    static SLOT_VT: RawWakerVTable = RawWakerVTable::new(s_clone, s_wake, s_wake_by_ref, s_drop);
+
+    /// wakes the borrowed waker by reference `k` times, takes one clone, wakes it by reference and by value
+    struct Waky(u32);
+    impl Future for Waky {
+        type Output = u32;
+        fn poll(self: Pin<&mut Self>, cx: &mut Context<'_>) -> Poll<u32> {
+            for _ in 0..self.0 {
+                cx.waker().wake_by_ref();
+            }
+            let c = cx.waker().clone();
+            c.wake_by_ref();
+            c.wake();
+            Poll::Ready(7)
+        }
+    }
+    /// ready on the second poll; asks to be polled again through the borrowed waker (yield once)
+    struct YieldOnce(bool);
+    impl Future for YieldOnce {
+        type Output = u32;
+        fn poll(mut self: Pin<&mut Self>, cx: &mut Context<'_>) -> Poll<u32> {
+            if self.0 {
+                Poll::Ready(9)
+            } else {
+                self.0 = true;
+                cx.waker().wake_by_ref();
+                Poll::Pending
+            }
+        }
+    }
+    /// polls the opaque future it owns with the context it is given
+    struct Through<F>(F);
+    impl<F: Future<Output = u32> + Unpin> Future for Through<F> {
+        type Output = u32;
+        fn poll(mut self: Pin<&mut Self>, cx: &mut Context<'_>) -> Poll<u32> {
+            Pin::new(&mut self.0).poll(cx)
+        }
+    }
+
+    pub fn run(rep: &mut Report) {
+        // slot-numbered wakers, slot 0 = null data pointer
+        for slot in 0..4usize {
+            for k in 0..3u32 {
+                let (w0, l0) = (SLOT_WAKES[slot].load(Ordering::SeqCst), SLOT_LIVE[slot].load(Ordering::SeqCst));
+                let waker = std::mem::ManuallyDrop::new(unsafe { Waker::from_raw(RawWaker::new(slot as *const (), &SLOT_VT)) });
+                {
+                    let mut cx = Context::from_waker(&waker);
+                    let mut obj = trait_obj!(Waky(k) as Future);
+                    let _ = Pin::new(&mut obj).poll(&mut cx);
+                }
+                let (w, l) = (SLOT_WAKES[slot].load(Ordering::SeqCst) - w0, SLOT_LIVE[slot].load(Ordering::SeqCst) as i64 - l0 as i64);
+                let tag = format!("waker with data pointer {:#x}, {} wakes by reference on the borrowed waker + 2 on a clone", slot, k);
+                if w != k as u64 + 2 {
+                    rep.violation("C19:wake-count", &format!("{}: {} wakes reached the caller's waker, {} were issued", tag, w, k + 2), &tag);
+                }
+                if l != 0 {
+                    rep.violation("C19:clone-not-released", &format!("{}: clones outstanding after the poll: {}", tag, l), &tag);
+                }
+                rep.add("slot_waker_cases", 1);
+            }
+        }
+        // an opaque future inside an opaque future (and one more level)
+        for depth in 1..=3u32 {
+            let arc = Arc::new(CountWaker { wakes: AtomicU64::new(0) });
+            let waker = Waker::from(arc.clone());
+            let mut cx = Context::from_waker(&waker);
+            let tag = format!("yield-once future wrapped in {} opaque object(s)", depth);
+            let inner = trait_obj!(YieldOnce(false) as Future);
+            let (first, second) = match depth {
+                1 => { let mut o = inner; (Pin::new(&mut o).poll(&mut cx), Pin::new(&mut o).poll(&mut cx)) }
+                2 => { let mut o = trait_obj!(Through(inner) as Future); (Pin::new(&mut o).poll(&mut cx), Pin::new(&mut o).poll(&mut cx)) }
+                _ => { let mid = trait_obj!(Through(inner) as Future); let mut o = trait_obj!(Through(mid) as Future); (Pin::new(&mut o).poll(&mut cx), Pin::new(&mut o).poll(&mut cx)) }
+            };
+            let wakes = arc.wakes.load(Ordering::SeqCst);
+            if first != Poll::Pending || second != Poll::Ready(9) {
+                rep.violation("C19:poll-result", &format!("{}: polls returned {:?} then {:?}", tag, first, second), &tag);
+            }
+            if wakes != 1 {
+                rep.violation("C19:wake-count", &format!("{}: the inner future woke its context once during the first poll, the caller's waker saw {} wakes", tag, wakes), &tag);
+            }
+            drop(waker);
+            if Arc::strong_count(&arc) != 1 {
+                rep.violation("C19:clone-not-released", &format!("{}: {} references to the caller's waker left", tag, Arc::strong_count(&arc) - 1), &tag);
+            }
+            rep.add("nested_future_cases", 1);
+        }
+    }
+}
+
 pub fn run(args: &Args, rep: &mut Report) {
     let mut rng = Rng::new(args.seed);
     if args.has("upgrade") {
         upgrade::run(rep);
+        shapes::run(rep);
         return;
     }
     if args.has("race") {
